@@ -1,7 +1,7 @@
 CONSTANTS
   Fuel = 12
-  ProgSet <- Programs
+  ProgSet <- Sk11
 INIT Init
 NEXT Next
-INVARIANT BalancedInv
+CONSTRAINT Emit
 CHECK_DEADLOCK FALSE
